@@ -40,7 +40,7 @@ type LockAn struct {
 	entry map[*ssa.Function]LockSet
 	in    map[*ssa.BasicBlock]LockSet
 	// per instruction state *before* the instruction
-	before map[ssa.Instruction]LockSet
+	before   map[ssa.Instruction]LockSet
 	nLockOps int
 	pkg      string
 	unlocks  map[*ssa.Function]bool // the function (or a package-local callee, transitively) releases the mutex
